@@ -94,11 +94,14 @@ package raterun
 //@   thread-root
 //@   requires wfRunner(r) && !closed(r.stopped) && schedulesCtx != nil
 //@   dyncall runFunction : runFn
-//@   ghost at entry : G18calls = 0 ; G18ticks = 0
-//@   ghost after call select:arm2 : G18ticks = G18ticks + 1
+//@   ghost at entry : G18calls = 0 ; G18ticks = 0 ; G18lastArm = -1
+//@   ghost after call select:arm2 : G18ticks = G18ticks + 1 ; G18lastArm = 2
+//@   ghost after call select:arm0 : G18lastArm = 0
+//@   ghost after call select:arm1 : G18lastArm = 1
 //@   ghost before call (*schedules).currentFrequency : assume r.schedules.currentScheduleIndex >= 0
 //@   ghost before call dyn:runFunction : assert [while-open] !closed(r.stopped) ; assert [frequency] arg0 == r.schedules.list[r.schedules.currentScheduleIndex].Frequency ; G18calls = G18calls + 1
 //@   loop 0 invariant wfRunner(r) && !closed(r.stopped) && G18calls == G18ticks
+//@   loop 0 invariant [a-received-restart-goes-back-to-the-first-schedule] G18lastArm == 0 ==> (r.schedules.currentScheduleIndex == 0 && tickerPeriod(r.schedules.ticker) == r.schedules.list[0].Frequency)
 //@   ensures [closed-last] closed(r.stopped) && G18calls == G18ticks
 //@   ensures [timers-stopped] timerStopped(r.schedules.ticker) && timerStopped(r.schedules.nextScheduleTimer)
 //@
@@ -112,7 +115,16 @@ package raterun
 //@ fnspec cancelFn()
 //@   modifies nothing
 //@
+//@ // A Restart is a request that cannot be lost on the sender's side: every call performs one unconditional send on
+//@ // the restart channel (a send demoted to an arm of a select with a default may silently do nothing). The runner
+//@ // goroutine answers every restart it receives by going back to the first schedule before it waits again (stated over
+//@ // the state at the loop head, so it does not matter which helper does it).
+//@ ghost var G18restartReq int
+//@ ghost var G18lastArm int
+//@
 //@ func (*Runner).Restart
 //@   props C18
 //@   requires r != nil
-//@   modifies nothing
+//@   ghost after call send:restart : G18restartReq = G18restartReq + 1
+//@   modifies G18restartReq
+//@   ensures [every-restart-is-requested] G18restartReq == old(G18restartReq) + 1
